@@ -52,12 +52,24 @@ def fromHexOut (o : Outcome HexError Hash) : String :=
   | .err e => hexErrStr e
   | .panic _ => "PANIC"
 
+/-- the formatter settings the harness knows (`E fmt <spec> <hash>`) -/
+def fmtSpecs : List String :=
+  ["plain", "prec8", "prec0", "prec64", "prec100", "w80", "w70r", "w70l", "w66c", "w70fill", "w08", "w100zero", "alt", "plus",
+   "argw", "argp", "tostring"]
+
 def stepOp : List String → Option String
   | ["tohex", h] => do
     let hash ← hash? (← unhexTok h)
     match toHexO hash, display hash with
     | .ok a, .ok d => pure (asciiStr a ++ " " ++ (if a = d then "same" else "differ"))
     | _, _ => pure "PANIC"
+  | ["fmt", spec, h] => do
+    -- Display under formatter flags: `fmt` writes the digits with `write_str`, which ignores width, fill, alignment and precision
+    let hash ← hash? (← unhexTok h)
+    if ¬ fmtSpecs.contains spec then none
+    match display hash with
+    | .ok d => pure (asciiStr d)
+    | _ => pure "PANIC"
   | ["fromhex", s] => do
     let inp ← unhexTok s
     pure (fromHexOut (fromHex inp))
